@@ -125,9 +125,35 @@ def gen_valid_case(rng, big=False):
         stream = enc10([m.encode('utf-8') for m in msgs])
         if rng.random() < 0.2:
             stream += rng.choice([b'\n', b'  ', b'\r\n'])
-    segs = segmentations(rng, stream)
+    # read size: 4096 octets (SSH, Unix socket) or a whole TLS record on top of it (the TLS transport keeps reading while the SSL
+    # object holds decrypted octets)
+    segs = segmentations(rng, stream, rng.choice([4096, 4096, 4096 + 16384]))
     return {'base11': base11, 'msgs': msgs, 'chunks': [[c.hex() for c in cs] for cs in chunked] if chunked else None,
             'segs': [s.hex() for s in segs]}
+
+
+def gen_record_case(rng):
+    """A short message and its terminator at the FRONT of one large read (a TLS record), followed in the same read by several thousand
+    octets of the next message, whose own terminator comes in a later read."""
+    base11 = rng.random() < 0.5
+    small = '<rpc-reply message-id="%d" xmlns="urn:ietf:params:xml:ns:netconf:base:1.0"><ok/></rpc-reply>' % rng.randint(1, 999)
+    big = '<notification xmlns="urn:ietf:params:xml:ns:netconf:notification:1.0"><e>%s</e></notification>' % gen_text(rng, rng.choice([5000, 9000, 15000]))
+    tail = '<x>%s</x>' % gen_text(rng, 40)
+    msgs = [small, big, tail]
+    if base11:
+        from oracle.framing_spec import enc11
+        chunked = [[m.encode('utf-8')] for m in msgs]
+        stream = enc11(chunked)
+    else:
+        from oracle.framing_spec import enc10
+        chunked = None
+        msgs = [m if (m.encode('utf-8') + b']]>]]>').find(b']]>]]>') == len(m.encode('utf-8')) else m + 'x' for m in msgs]
+        stream = enc10([m.encode('utf-8') for m in msgs])
+    first_end = len(small.encode('utf-8')) + (6 if not base11 else 12)
+    big_len = len(msgs[1].encode('utf-8'))
+    cut = min(len(stream) - 10, first_end + rng.randint(4200, max(4300, min(big_len - 50, 19000))))
+    segs = [stream[:cut]] + segmentations(rng, stream[cut:], 4096)
+    return {'base11': base11, 'msgs': msgs, 'chunks': [[c.hex() for c in cs] for cs in chunked] if chunked else None, 'segs': [x.hex() for x in segs]}
 
 
 MUTS = ['drop', 'insert', 'flip', 'size+1', 'size-1', 'size0', 'lead0', 'bigsize', 'nolf', 'endfirst', 'truncate',
